@@ -539,12 +539,16 @@ type Rec struct {
 	MN map[string]Inner `json:"mn"`
 	P  *int64           `json:"p"`
 	N  *Inner           `json:"n"`
+	// values reachable only through pointer-sized slots of the bank
+	PP **int64           `json:"pp"`
+	PM *map[string]int64 `json:"pm"`
 }
 
 var recSchema = ref.Record("Rec",
 	ref.F("s", ref.Prim("string")), ref.F("b", ref.Prim("bytes")), ref.F("l", ref.Array(ref.Prim("string"))), ref.F("m", ref.Map(ref.Prim("string"))),
 	ref.F("mi", ref.Map(ref.Prim("long"))), ref.F("mn", ref.Map(ref.Record("InnerM", ref.F("v", ref.Prim("string"))))),
-	ref.F("p", ref.Union(ref.Prim("null"), ref.Prim("long"))), ref.F("n", ref.Union(ref.Prim("null"), ref.Record("Inner", ref.F("v", ref.Prim("string"))))))
+	ref.F("p", ref.Union(ref.Prim("null"), ref.Prim("long"))), ref.F("n", ref.Union(ref.Prim("null"), ref.Record("Inner", ref.F("v", ref.Prim("string"))))),
+	ref.F("pp", ref.Union(ref.Prim("null"), ref.Prim("long"))), ref.F("pm", ref.Map(ref.Prim("long"))))
 
 func recDatums(order int) []ref.Datum {
 	full := func(i int) ref.Datum {
@@ -552,9 +556,10 @@ func recDatums(order int) []ref.Datum {
 		return ref.DRecord(ref.DString(tag+strings.Repeat("s", 20+i)), ref.DBytes(tag+"bytes"), ref.DArray(ref.DString(tag+"l0"), ref.DString(tag+"l1-"+strings.Repeat("x", 40))),
 			ref.DMap([]string{tag + "k"}, []ref.Datum{ref.DString(tag + "v")}),
 			ref.DMap([]string{tag + "a", tag + "b"}, []ref.Datum{ref.DLong(int64(2000 + i)), ref.DLong(int64(3000 + i))}),
-			ref.DMap([]string{tag + "n"}, []ref.Datum{ref.DRecord(ref.DString(tag + "mapped-inner"))}), ref.DUnion(1, ref.DLong(int64(1000+i))), ref.DUnion(1, ref.DRecord(ref.DString(tag+"inner"))))
+			ref.DMap([]string{tag + "n"}, []ref.Datum{ref.DRecord(ref.DString(tag + "mapped-inner"))}), ref.DUnion(1, ref.DLong(int64(1000+i))), ref.DUnion(1, ref.DRecord(ref.DString(tag+"inner"))),
+			ref.DUnion(1, ref.DLong(int64(7000+i))), ref.DMap([]string{tag + "pm"}, []ref.Datum{ref.DLong(int64(8000 + i))}))
 	}
-	empty := ref.DRecord(ref.DString(""), ref.DBytes(""), ref.DArray(), ref.DMap(nil, nil), ref.DMap(nil, nil), ref.DMap(nil, nil), ref.DUnion(0, ref.DNull()), ref.DUnion(0, ref.DNull()))
+	empty := ref.DRecord(ref.DString(""), ref.DBytes(""), ref.DArray(), ref.DMap(nil, nil), ref.DMap(nil, nil), ref.DMap(nil, nil), ref.DUnion(0, ref.DNull()), ref.DUnion(0, ref.DNull()), ref.DUnion(0, ref.DNull()), ref.DMap(nil, nil))
 	if order == 2 {
 		// the same strings again and again: the LAST string a record decodes (the nested record's) equals the FIRST
 		// one the next record decodes, and keys and items repeat from record to record
@@ -562,7 +567,8 @@ func recDatums(order int) []ref.Datum {
 			return ref.DRecord(ref.DString(rep), ref.DBytes(rep), ref.DArray(ref.DString(rep), ref.DString(rep)),
 				ref.DMap([]string{rep}, []ref.Datum{ref.DString(rep)}),
 				ref.DMap([]string{rep}, []ref.Datum{ref.DLong(int64(2000 + i))}),
-				ref.DMap([]string{rep}, []ref.Datum{ref.DRecord(ref.DString(rep))}), ref.DUnion(1, ref.DLong(int64(1000+i))), ref.DUnion(1, ref.DRecord(ref.DString(rep))))
+				ref.DMap([]string{rep}, []ref.Datum{ref.DRecord(ref.DString(rep))}), ref.DUnion(1, ref.DLong(int64(1000+i))), ref.DUnion(1, ref.DRecord(ref.DString(rep))),
+				ref.DUnion(1, ref.DLong(int64(7000+i))), ref.DMap([]string{rep}, []ref.Datum{ref.DLong(int64(8000 + i))}))
 		}
 		// two records repeating one string, then two repeating another of the same length (a recycled bank is
 		// refilled with different bytes at the same offsets)
@@ -622,6 +628,19 @@ func runE2(c *fw.Ctx, codec string, comp []int, mode int, poolBound int, order i
 			}()
 			err = avro.ReadFile(&filedrv.Reader{Data: f.Data, Mode: mode}, Rec{}, func(val unsafe.Pointer, rb *avro.ResourceBank) error {
 				v := reflect.NewAt(sc.Type, val).Elem()
+				// the delivered []byte is the caller's: appending to it (here: filling its spare capacity) is
+				// ordinary use and must not reach anything else that is alive
+				if b := (*Rec)(val).B; cap(b) > len(b) {
+					ext := b[:cap(b)]
+					for i := len(b); i < len(ext); i++ {
+						ext[i] = 0xEE
+					}
+				}
+				if execs%40 == 0 && idx == 2 {
+					// a collection while earlier records are retained (values reachable only through the bank's
+					// pointer slots must survive it); clobberfree makes a wrongly freed object visible at once
+					runtime.GC()
+				}
 				sh := reflect.New(sc.Type).Elem()
 				sh.Set(v)
 				r := &retained{shallow: sh, deep: gv.DeepCopy(v), bank: rb, open: true}
@@ -819,7 +838,7 @@ func init() {
 			if tier == "thorough" {
 				depth, banks, pb = 7, 3, 3
 			}
-			return fmt.Sprintf("built with the sync→zzvsync overlay so that sync.Pool recycling is an explored choice. (E1) explicit-state BFS over sequences (depth %d) of real ResourceBank/ReadBuf operations {alloc(int64), alloc(struct with pointer and string), 17×alloc (arena growth), ToString/NextAsString of 2 and 300 bytes (string store regrowth), Close(bank i), ExtractResourceBank with Pool.Get answer ∈ {new, each of the 2 most recently pooled banks}, recycle (the ReadBuf's bank goes through Close and the pool and comes back)} over the ReadBuf's bank and <=%d extracted banks; successor = replay on a fresh world + one operation; canonical state = per physical bank (role, fill levels, high-water classes) and pool order; shadow-heap model: after EVERY step a new allocation must be all-zero and disjoint (address ranges) from every live allocation and string of every open bank, and every live allocation and string must still hold its pattern. (E2) ReadFile over 4-record files (strings, bytes, slices, maps of strings / longs / records, pointers to long and to a record — map values and pointer targets of the same types; an all-empty record as third or as second of the four; or four records that repeat one string in every string position) × 3 codecs × 4 block partitions × 2 reader modes, with the callback's retention policy (keep / close own bank / close the bank of any earlier open record) explored exhaustively and Pool.Get answers with <=%d deviations: every retained shallow copy whose bank is open must equal the deep copy taken at delivery, at every later callback, at the end, and again after a second ReadFile (whose banks are closed at once) has run; (E3) what delivered time.Time values SHOW (zone name, offset, String, Format) for RFC 3339 strings with five unusual offsets in five blocks must be unchanged after the rest of the file has been read; distinct_nontrivial = distinct histories / choice vectors checked", depth, banks, pb)
+			return fmt.Sprintf("built with the sync→zzvsync overlay so that sync.Pool recycling is an explored choice. (E1) explicit-state BFS over sequences (depth %d) of real ResourceBank/ReadBuf operations {alloc(int64), alloc(struct with pointer and string), 17×alloc (arena growth), ToString/NextAsString of 2 and 300 bytes (string store regrowth), Close(bank i), ExtractResourceBank with Pool.Get answer ∈ {new, each of the 2 most recently pooled banks}, recycle (the ReadBuf's bank goes through Close and the pool and comes back)} over the ReadBuf's bank and <=%d extracted banks; successor = replay on a fresh world + one operation; canonical state = per physical bank (role, fill levels, high-water classes) and pool order; shadow-heap model: after EVERY step a new allocation must be all-zero and disjoint (address ranges) from every live allocation and string of every open bank, and every live allocation and string must still hold its pattern. (E2) ReadFile over 4-record files (strings, bytes, slices, maps of strings / longs / records, pointers to long and to a record — map values and pointer targets of the same types — a **long and a *map; the spare capacity of every delivered []byte is overwritten by the callback (as an append would) and a collection runs in every 40th execution (clobberfree); an all-empty record as third or as second of the four; or four records that repeat one string in every string position) × 3 codecs × 4 block partitions × 2 reader modes, with the callback's retention policy (keep / close own bank / close the bank of any earlier open record) explored exhaustively and Pool.Get answers with <=%d deviations: every retained shallow copy whose bank is open must equal the deep copy taken at delivery, at every later callback, at the end, and again after a second ReadFile (whose banks are closed at once) has run; (E3) what delivered time.Time values SHOW (zone name, offset, String, Format) for RFC 3339 strings with five unusual offsets in five blocks must be unchanged after the rest of the file has been read; distinct_nontrivial = distinct histories / choice vectors checked", depth, banks, pb)
 		},
 		Assumptions: []string{
 			"double Close of one bank and use after Close are API misuse and excluded from the alphabet",
@@ -832,7 +851,7 @@ func init() {
 			c.Begin("c10", t.name)
 			t.run(c)
 		},
-		WorkerEnv: []string{"GOGC=400"},
+		WorkerEnv: []string{"GOGC=400", "GODEBUG=clobberfree=1"},
 		Budget:    func(tier string) time.Duration { return 40 * time.Minute },
 	})
 }
